@@ -127,7 +127,59 @@ class FromBaseMapLoop(LoopSpec):
         return []
 
 
+contains_witness = F("list_contains_witness", Val, Val, IntS)
+
+
+def contains_axioms(V, x, idxs):
+    """[SPEC-BUILTIN] list.__contains__: some element is the value or == to it.  (A1) at the given indices, (A2) at
+    the witness index."""
+    w = contains_witness(V, x)
+    out = [z3.Implies(bs.list_contains(V, x), z3.And(w >= 0, w < bs.list_len(V), pyeq(bs.list_get(V, VInt(w)), x)))]
+    for i in idxs:
+        out.append(z3.Implies(z3.And(i >= 0, i < bs.list_len(V), pyeq(bs.list_get(V, VInt(i)), x)), bs.list_contains(V, x)))
+    return out
+
+
+class SequenceContainsLoop(LoopSpec):
+    """collections.abc.Sequence.__contains__:  `for v in self: if v is value or v == value: return True`.
+    With V the receiver's plain view and w = the witness index of list_contains(V, value):
+        every visited position in range holds an element that is not == value   (pointwise at w)."""
+    ordered = True
+
+    def parts(self, L, st):
+        from pyvc.loops import param_name
+        me = st.loc[param_name(L.fi, 0)]
+        x = to_val(st.loc[param_name(L.fi, 1)])
+        V = st.sel("View", z3.IntVal(me.addr))
+        return me, x, V
+
+    def prepare(self, L, st):
+        me, x, V = self.parts(L, st)
+        c = L.seq.term
+        L.sk["w"] = contains_witness(V, x)
+        w = L.sk["w"]
+        # [N-VIEW] container and view agree (length, and element-wise at the witness)
+        st.assume(bs.list_len(c) == bs.list_len(V))
+        st.assume(z3.Implies(z3.And(w >= 0, w < bs.list_len(c)), L.eng.intr.iv(st, bs.list_get(c, VInt(w))) == bs.list_get(V, VInt(w))))
+
+    def invariant(self, L, st, vis):
+        me, x, V = self.parts(L, st)
+        w = L.sk["w"]
+        return [("visited-elements-differ", z3.Implies(z3.And(w >= 0, w < bs.list_len(V), vis(w)),
+                                                        z3.Not(pyeq(bs.list_get(V, VInt(w)), x))))]
+
+    def iteration_facts(self, L, st, i):
+        me, x, V = self.parts(L, st)
+        c = L.seq.term
+        return [L.eng.intr.iv(st, bs.list_get(c, VInt(i))) == bs.list_get(V, VInt(i))] + contains_axioms(V, x, [i])
+
+    def at_exit(self, L, st):
+        me, x, V = self.parts(L, st)
+        return contains_axioms(V, x, [])
+
+
 def register(eng):
+    eng.loop_specs[("stdlib:Sequence.__contains__", 1)] = SequenceContainsLoop()
     eng.loop_specs[("_comp_list", 1)] = FromBaseMapLoop("list")
     eng.loop_specs[("_comp_dict", 1)] = FromBaseMapLoop("dict")
     eng.virtual["_to_base"] = VirtualToBase()
